@@ -77,7 +77,8 @@ def main():
                  'quant-short': 4, 'quant-ident': 5, 'cast-cond': 4, 'regex-rewrite': 2, 'modifier': 5, 'condition': 5}
         tpl = templates.thin(tpl, quota, rnd)
     ck.extra['templates'] = len(tpl)
-    ck.run_units([('@cache-keys', None)] + [(name, templates.render(rule)) for _, name, rule in tpl], run_unit)
+    dotted = [('@object:' + name, templates.render(rule)) for fam, name, rule in templates.select(ck.tier, ck.seed) if fam in ('dotted', 'nested')]
+    ck.run_units([('@cache-keys', None)] + dotted + [(name, templates.render(rule)) for _, name, rule in tpl], run_unit)
     ck.finish('every Document::find / Object::get that reaches the user document on any feasible path is for a key written '
               'in the rule at that nesting level; decided by z3 per recorded request (unsat = request infeasible)')
 
@@ -113,10 +114,81 @@ def cache_keys(ck):
     ck.samples.append({'form': 'Cache::find(char::from_u32(i)) reads slot i', 'columns': n})
 
 
+def object_mode_unit(ck, name, yaml):
+    """the document implements Object (YAML / JSON / HashMap documents do): paths are resolved by Object::find, whose
+    Object::get requests must follow the written path: segment k of a written key is asked of the object reached by
+    segments 0..k-1, and nothing else is asked"""
+    quick = ck.tier == 'quick'
+    br = ck.bridge()
+    base, variants, _ = collect_variants(ck, br, yaml, 2 if quick else 6)
+    if 'panic' in base or not base.get('ok'):
+        return
+    variants.setdefault(tree_text(base), (None, base))
+    written = written_keys(base)
+    allowed = {}
+    for chain, keys in written.items():
+        for key in keys:
+            segs = key.decode().split('.')
+            cur = tuple(chain)
+            for sgm in segs:
+                nm = sgm.split('[')[0]
+                allowed.setdefault(cur, set()).add(nm.encode())
+                cur = cur + (nm.encode(),)
+    tr = TreeRunner(ck, Bounds(str_cap=2, arr_cap=2, depth=3, as_object=True), as_object=True)
+    tr.uni.numstr_cap = 2
+    for txt, (opts, rj) in variants.items():
+        label = '%s opts=%s' % (name, opts_label(opts) if opts else 'none')
+        v = tr.evaluate(rj)
+        ck.extra['programs'] = ck.extra.get('programs', 0) + 1
+        bad = []
+        for cond, ev in flatten_events(v['finds']):
+            if ev[0] != 'get':
+                continue
+            chain = chain_of(ev[1])
+            if ev[2] not in allowed.get(chain, set()):
+                bad.append((cond, ev))
+
+        def on_sat(model, bad=bad, label=label, opts=opts, rj=rj):
+            docj = tr.render_doc(model)
+            hit = [ev for c, ev in bad if c is True or z3.is_true(model.eval(z3bool(c), model_completion=True))]
+            # native confirmation: the verdict must not change when the fields behind the stray requests are removed
+            n1 = br.call(cmd='eval', yaml=yaml, opts=opts, doc=docj, mode='object')
+            stray = {(chain_of(e[1]), e[2]) for e in hit}
+            doc2 = drop_fields(docj, stray)
+            n2 = br.call(cmd='eval', yaml=yaml, opts=opts, doc=doc2, mode='object')
+            path = ck.write_replay(safe(label), {'rule': yaml, 'opts': opts, 'doc': docj, 'doc_without_unaddressed_fields': doc2, 'native': n1,
+                                                 'native_without': n2, 'stray_requests': [[e[1], list(e[2])] for e in hit], 'mode': 'object'})
+            if n1.get('verdict') != n2.get('verdict'):
+                ck.replays_ok += 1
+                return ('violation', path, '%s: the verdict depends on a field the rule does not address (%s): %s vs %s' % (
+                    label, [(e[1], e[2]) for e in hit][:2], n1.get('verdict'), n2.get('verdict')))
+            return ('violation', path, '%s: Object::get is asked for %r which the written path does not contain' % (label, [(e[1], e[2]) for e in hit][:3]))
+        ck.obligation(label + ':requests follow the written paths', tr.uni, b_or(*[c for c, _ in bad]) if bad else False,
+                      sample={'rule': name, 'mode': 'object'}, on_sat=on_sat)
+
+
+def drop_fields(docj, stray):
+    def walk(j, chain):
+        if isinstance(j, dict) and '$obj' in j:
+            out = []
+            for k, v in j['$obj']:
+                if (chain, bytes(k)) in stray:
+                    continue
+                out.append([k, walk(v, chain + (bytes(k),))])
+            return {'$obj': out}
+        if isinstance(j, list):
+            return [walk(x, chain) for x in j]
+        return j
+    return walk(docj, ())
+
+
 def run_unit(ck, unit):
     name, yaml = unit
     if name == '@cache-keys':
         cache_keys(ck)
+        return
+    if name.startswith('@object:'):
+        object_mode_unit(ck, name[len('@object:'):], yaml)
         return
     quick = ck.tier == 'quick'
     br = ck.bridge()
